@@ -23,22 +23,51 @@ class Mutant:
     rule: str | None = None
     note: str = ""
     count: int = 1  # which occurrence (1-based) when the text occurs several times; 0 = must be unique
+    scope: str | None = None  # "Class.method" / "function": restrict the edit to that definition's source lines
 
 
 MUTANTS: list[Mutant] = []
 
 
-def M(id, props, rel, old, new, expect="fire", rule=None, note="", count=0):
+def M(id, props, rel, old, new, expect="fire", rule=None, note="", count=0, scope=None):
     if isinstance(props, str):
         props = (props,)
-    MUTANTS.append(Mutant(id, tuple(props), rel, old, new, expect, rule, note, count))
+    MUTANTS.append(Mutant(id, tuple(props), rel, old, new, expect, rule, note, count, scope))
 
 
 def for_prop(prop: str) -> list[Mutant]:
     return [m for m in MUTANTS if prop in m.props]
 
 
+def _segment(text: str, scope: str) -> tuple[int, int] | None:
+    import ast
+
+    try:
+        tree = ast.parse(text)
+    except SyntaxError:
+        return None
+    parts = scope.split(".")
+    body = tree.body
+    node = None
+    for name in parts:
+        node = next((n for n in body if isinstance(n, (ast.ClassDef, ast.FunctionDef)) and n.name == name), None)
+        if node is None:
+            return None
+        body = node.body
+    lines = text.splitlines(keepends=True)
+    start = sum(len(x) for x in lines[: node.lineno - 1])
+    end = sum(len(x) for x in lines[: node.end_lineno])
+    return start, end
+
+
 def apply(m: Mutant, text: str) -> str | None:
+    if m.scope:
+        seg = _segment(text, m.scope)
+        if seg is None:
+            return None
+        a, b = seg
+        inner = apply(dataclasses.replace(m, scope=None), text[a:b])
+        return None if inner is None else text[:a] + inner + text[b:]
     n = text.count(m.old)
     if n == 0:
         return None
